@@ -130,7 +130,7 @@ Definition verify_one (ct : pystr) (must_https : bool) (uri : pystr) : res (pyst
   p <- urlsplit uri ;;
   if nonempty (u_fragment p) then Err (Refused 1)
   else if str_eqb ct S_native then
-    if nonempty (u_scheme p) && negb (str_in (u_scheme p) [S_http; S_https]) then Ok (uri, [])
+    if nonempty (u_scheme p) && negb (str_in (u_scheme p) [S_http; S_https]) then do_split uri   (* custom scheme: not verified further, stored as base + query like the others (48214a9+) *)
     else if str_eqb (u_scheme p) S_http
             && match hostname (u_netloc p) with Some h => str_in h [S_localhost; S_127] | None => false end
          then do_split uri
